@@ -211,7 +211,7 @@ def St.unroll (cfg : Cfg) (s : St) (shots : Nat) : St × Outcome :=
 def St.spaceFresh (cfg : Cfg) (s : St) (shots : Nat) : St :=
   let s := { s with shots := some shots }
   let vac : Int := (cfg.concurr : Int) - 1
-  let s := { s with numAdded := (cfg.timebins : Int) - s.initNum + vac }
+  let s := { s with numAdded := ((shots * cfg.timebins : Nat) : Int) - s.initNum + vac }
   let s := if 0 < s.numAdded then
       { s with regRefs := addSubsystems s.regRefs s.numAdded.toNat, initNum := s.initNum + s.numAdded }
     else s
@@ -277,74 +277,6 @@ def padded (alphas : List (List Int)) (delays : List Nat) : List (List Int) :=
   List.zipWith (fun alpha pro => List.replicate pro 0 ++ alpha ++ List.replicate (total - pro) 0)
     alphas (prologues 0 alphas delays)
 
-/-! ### the engine side: `get_tdm_options`, execution, roll-back -/
-
-structure RunOut where
-  /-- the circuit handed to `_run_program` -/
-  executed : List TCmd
-  /-- the number of modes the back end is initialised with -/
-  backendModes : Int
-  /-- `modes` of the returned state: `some (lo, hi)` = `range(lo, hi)`, `none` = all -/
-  stateModes : Option (Nat × Nat)
-deriving DecidableEq, Repr, Inhabited
-
-/-- the beamsplitter data `get_crop_value` reads off a rolled circuit -/
-def bsPairs (rolled : List TCmd) : List (Nat × Nat) :=
-  (rolled.filter (·.cls == "BSgate")).map fun c =>
-    let a := c.regs.getD 0 0
-    let b := c.regs.getD 1 0
-    (min a b, max a b)
-
-def firstVar : List TPar → Option Nat
-  | [] => none
-  | .var i :: _ => some i
-  | .const _ :: ps => firstVar ps
-
-def bsAlphas (cfg : Cfg) (rolled : List TCmd) : List (List Int) :=
-  (rolled.filter (·.cls == "BSgate")).filterMap fun c =>
-    (firstVar c.pars).map fun i => cfg.params.getD i []
-
-def St.cropValue (cfg : Cfg) (s : St) : Nat :=
-  Tdm.cropValue (bsAlphas cfg s.rolled) ((getDelays (bsPairs s.rolled)).getD [])
-
-/-- `LocalEngine.run(prog, shots, space_unroll, crop)` seen from the user's program `s`: the engine
-works on a linked copy (locked, sharing `reg_refs` with `s`), unrolls it if needed, executes it and
-rolls the copy back iff it unrolled it itself. -/
-def St.run (cfg : Cfg) (s : St) (shots : Option Nat) (space crop : Bool) : St × RunOut :=
-  let s := { s with locked := true }
-  let sh := match shots with | some 0 => 1 | some k => k | none => 1
-  let r : St × Bool :=
-    if space then
-      if s.spaceUnrolled.isNone then (s.spaceUnroll cfg sh, true) else (s, false)
-    else
-      if !s.isUnrolled then ((s.unroll cfg sh).1, true) else (s, false)
-  let p := r.1
-  let stateModes :=
-    if p.spaceUnrolled.isSome then
-      some ((if crop then p.cropValue cfg else 0), cfg.timebins)
-    else none
-  let out : RunOut := { executed := p.circuit, backendModes := p.initNum, stateModes := stateModes }
-  let p := if r.2 then p.roll else p
-  ({ s with regRefs := p.regRefs }, out)
-
-/-- the call alphabet of the property's quantifier -/
-inductive Ev
-  | unroll (shots : Nat)
-  | spaceUnroll (shots : Nat)
-  | roll
-  | run (shots : Option Nat) (space crop : Bool)
-  | lock
-deriving DecidableEq, Repr, Inhabited
-
-def St.step (cfg : Cfg) (s : St) : Ev → St
-  | .unroll k => (s.unroll cfg k).1
-  | .spaceUnroll k => s.spaceUnroll cfg k
-  | .roll => s.roll
-  | .run sh sp cr => (s.run cfg sh sp cr).1
-  | .lock => { s with locked := true }
-
-def St.steps (cfg : Cfg) (s : St) (evs : List Ev) : St := evs.foldl (St.step cfg) s
-
 /-! ### `_get_mode_order` and `reshape_samples` -/
 
 /-- `l * k` -/
@@ -392,18 +324,25 @@ structure RS where
   tb : Nat := 0
 deriving Repr, Inhabited
 
-/-- one iteration of the loop of `reshape_samples` (`i`-th entry `mode` of the mode order) -/
+/-- the placement half of one loop iteration: the `i`-th sample goes to key `modes[i % B]`, time bin
+`tb`; returns the new `new_samples` and `timebin_idx` -/
+def placeSample (modes : List Nat) (B T : Nat) (out : List (Nat × List (List Int))) (tb i : Nat)
+    (sample : Int) : List (Nat × List (List Int)) × Nat :=
+  let key := modes.getD (i % B) 0
+  let cur := if out.any (·.1 == key) then alGet [] out key else List.replicate T []
+  let cur := listSet cur tb (cur.getD tb [] ++ [sample])
+  (alSet out key cur, if (i + 1) % B = 0 then (tb + 1) % T else tb)
+
+/-- one iteration of the loop of `reshape_samples` (`i`-th entry `mode` of the mode order): the next
+unread sample of `mode` is read (`idx_tracker`) and placed -/
 def reshapeStep (samples : List (Nat × List Int)) (modes : List Nat) (B T : Nat) (st : RS)
     (im : Nat × Nat) : RS :=
   let i := im.1
   let mode := im.2
-  let key := modes.getD (i % B) 0
-  let cur := if st.out.any (·.1 == key) then alGet [] st.out key else List.replicate T []
   let k := alGet 0 st.tracker mode
   let sample := (alGet [] samples mode).getD k 0
-  let cur := listSet cur st.tb (cur.getD st.tb [] ++ [sample])
-  { tracker := alSet st.tracker mode (k + 1), out := alSet st.out key cur,
-    tb := if (i + 1) % B = 0 then (st.tb + 1) % T else st.tb }
+  let r := placeSample modes B T st.out st.tb i sample
+  { tracker := alSet st.tracker mode (k + 1), out := r.1, tb := r.2 }
 
 /-- `np.array(v).T` of a rectangular nested list with `T` rows -/
 def transposeRect (v : List (List Int)) : List (List Int) :=
@@ -411,20 +350,136 @@ def transposeRect (v : List (List Int)) : List (List Int) :=
   | [] => []
   | r :: _ => (List.range r.length).map fun s => v.map fun row => row.getD s 0
 
-/-- `reshape_samples(samples_dict, modes, N, timebins)`; `samples` maps a subsystem index to the list
-of its outcomes in measurement order.  Result: key ↦ array of shape (shots, timebins), keys in
-insertion order. -/
+/-- the loop of `reshape_samples` for a given mode order (`B = len(N)`); result: key ↦ array of shape
+(shots, timebins), keys in insertion order -/
+def reshapeWith (samples : List (Nat × List Int)) (modes : List Nat) (B T : Nat) (order : List Nat) :
+    List (Nat × List (List Int)) :=
+  let st := (order.zipIdx.map fun x => (x.2, x.1)).foldl (reshapeStep samples modes B T) {}
+  st.out.map fun kv => (kv.1, transposeRect kv.2)
+
+/-- `reshape_samples(samples_dict, modes, N, timebins)` without `mode_order`: the order of the default
+shift is assumed.  `samples` maps a subsystem index to the list of its outcomes in measurement order. -/
 def reshapeSamples (samples : List (Nat × List Int)) (modes N : List Nat) (T : Nat) :
     List (Nat × List (List Int)) :=
-  let num := (samples.map (·.2.length)).sum
-  let order := getModeOrder num modes N
-  let st := (order.zipIdx.map fun x => (x.2, x.1)).foldl (reshapeStep samples modes N.length T) {}
-  st.out.map fun kv => (kv.1, transposeRect kv.2)
+  reshapeWith samples modes N.length T (getModeOrder ((samples.map (·.2.length)).sum) modes N)
+
+/-- stable insertion of index `x` by key -/
+def insertByKey (key : Nat → Nat) (x : Nat) : List Nat → List Nat
+  | [] => [x]
+  | y :: ys => if key x < key y then x :: y :: ys else y :: insertByKey key x ys
+
+/-- `sorted(range(len(slots)), key=slots.__getitem__)` -/
+def rankOf (slots : List Nat) : List Nat :=
+  (List.range slots.length).foldl (fun acc i => insertByKey (fun k => slots.getD k 0) i acc) []
+
+/-- first register of every measurement command, in circuit order -/
+def measuredRegs (circ : List TCmd) : List Nat := (circ.filter (·.meas)).map fun c => c.regs.getD 0 0
+
+/-- `TDMProgram.get_mode_order`: the subsystems the circuit measures, time bin by time bin and within a
+time bin in the order of the measured slots -/
+def measOrder (rolled circ : List TCmd) : List Nat :=
+  let slots := measuredRegs rolled
+  let measured := measuredRegs circ
+  let n := slots.length
+  if n = 0 then [] else
+  (List.range ((measured.length + n - 1) / n)).flatMap fun g =>
+    (rankOf slots).map fun k => measured.getD (g * n + k) 0
+
+def insertAsc (x : Nat) : List Nat → List Nat
+  | [] => [x]
+  | y :: ys => if x < y then x :: y :: ys else if x = y then y :: ys else y :: insertAsc x ys
+
+/-- `TDMProgram.measured_modes`: the measured slots, ascending, without repetition -/
+def measuredModes (rolled : List TCmd) : List Nat := (measuredRegs rolled).foldr insertAsc []
 
 /-- what `LocalEngine._run_program` collects from a circuit: subsystem ↦ outcomes in measurement
 order, when the `k`-th measurement returns the tag `k` -/
 def collectSamples (circ : List TCmd) : List (Nat × List Int) :=
   ((circ.filter (·.meas)).zipIdx).foldl
     (fun acc x => alSet acc (x.1.regs.getD 0 0) (alGet [] acc (x.1.regs.getD 0 0) ++ [(x.2 : Int)])) []
+
+/-! ### the engine side: `get_tdm_options`, execution, roll-back -/
+
+structure RunOut where
+  /-- the circuit handed to `_run_program` -/
+  executed : List TCmd
+  /-- the number of modes the back end is initialised with -/
+  backendModes : Int
+  /-- `modes` of the returned state: `some (lo, hi)` = `range(lo, hi)`, `none` = all -/
+  stateModes : Option (Nat × Nat)
+  /-- `Result.samples_dict` when the `k`-th executed measurement returns the tag `k` (`none`: no samples) -/
+  samples : Option (List (Nat × List (List Int))) := none
+deriving DecidableEq, Repr, Inhabited
+
+/-- the beamsplitter data `get_crop_value` reads off a rolled circuit -/
+def bsPairs (rolled : List TCmd) : List (Nat × Nat) :=
+  (rolled.filter (·.cls == "BSgate")).map fun c =>
+    let a := c.regs.getD 0 0
+    let b := c.regs.getD 1 0
+    (min a b, max a b)
+
+def firstVar : List TPar → Option Nat
+  | [] => none
+  | .var i :: _ => some i
+  | .const _ :: ps => firstVar ps
+
+def bsAlphas (cfg : Cfg) (rolled : List TCmd) : List (List Int) :=
+  (rolled.filter (·.cls == "BSgate")).filterMap fun c =>
+    (firstVar c.pars).map fun i => cfg.params.getD i []
+
+def St.cropValue (cfg : Cfg) (s : St) : Nat :=
+  Tdm.cropValue (bsAlphas cfg s.rolled) ((getDelays (bsPairs s.rolled)).getD [])
+
+/-- the samples dictionary `_run_program` returns for the executed circuit `circ` of a program whose
+rolled circuit is `rolled`: collected per subsystem, arranged by `reshape_samples` with the order read
+off the circuit, key `0` cropped -/
+def runSamples (cfg : Cfg) (rolled circ : List TCmd) (crop : Option Nat) : List (Nat × List (List Int)) :=
+  let d := reshapeWith (collectSamples circ) (measuredModes rolled) cfg.N.length cfg.timebins
+    (measOrder rolled circ)
+  match crop with
+  | none => d
+  | some c => d.map fun kv => if kv.1 = 0 then (kv.1, kv.2.map (·.drop c)) else kv
+
+/-- `LocalEngine.run(prog, shots, space_unroll, crop)` seen from the user's program `s`: the engine
+works on a linked copy (locked, sharing `reg_refs` with `s`), unrolls it if needed, executes it and
+rolls the copy back iff it unrolled it itself. -/
+def St.run (cfg : Cfg) (s : St) (shots : Option Nat) (space crop : Bool) : St × RunOut :=
+  let s := { s with locked := true }
+  let sh := match shots with | some 0 => 1 | some k => k | none => 1
+  let r : St × Bool :=
+    if space then
+      if s.spaceUnrolled.isNone then (s.spaceUnroll cfg sh, true) else (s, false)
+    else
+      if !s.isUnrolled then ((s.unroll cfg sh).1, true) else (s, false)
+  let p := r.1
+  let stateModes :=
+    if p.spaceUnrolled.isSome then
+      some ((if crop then p.cropValue cfg else 0), cfg.timebins)
+    else none
+  let samples :=
+    if shots.isNone || shots == some 0 || (measuredRegs p.circuit).isEmpty then none else
+    some (runSamples cfg p.rolled p.circuit (if crop then some (p.cropValue cfg) else none))
+  let out : RunOut := { executed := p.circuit, backendModes := p.initNum, stateModes := stateModes,
+                        samples := samples }
+  let p := if r.2 then p.roll else p
+  ({ s with regRefs := p.regRefs }, out)
+
+/-- the call alphabet of the property's quantifier -/
+inductive Ev
+  | unroll (shots : Nat)
+  | spaceUnroll (shots : Nat)
+  | roll
+  | run (shots : Option Nat) (space crop : Bool)
+  | lock
+deriving DecidableEq, Repr, Inhabited
+
+def St.step (cfg : Cfg) (s : St) : Ev → St
+  | .unroll k => (s.unroll cfg k).1
+  | .spaceUnroll k => s.spaceUnroll cfg k
+  | .roll => s.roll
+  | .run sh sp cr => (s.run cfg sh sp cr).1
+  | .lock => { s with locked := true }
+
+def St.steps (cfg : Cfg) (s : St) (evs : List Ev) : St := evs.foldl (St.step cfg) s
 
 end SFV.Tdm
